@@ -48,10 +48,8 @@ func parseRaces(log string) []raceReport {
 			if !strings.HasPrefix(file, "/") {
 				continue
 			}
-			fn := t
-			if k := strings.Index(fn, "("); k > 0 {
-				fn = fn[:k]
-			}
+			fn := strings.TrimSuffix(t, "()")
+			fn = strings.TrimPrefix(fn, "github.com/irai/")
 			i++
 			if strings.Contains(file, "/go-1.") || strings.Contains(file, "/src/runtime/") || strings.HasPrefix(fn, "runtime.") ||
 				strings.Contains(file, "/usr/lib/go") || strings.Contains(file, "/opt/veriftools/") {
@@ -61,7 +59,11 @@ func parseRaces(log string) []raceReport {
 				continue
 			}
 			if strings.Contains(file, "/verif/") {
-				harness = true
+				if strings.Contains(fn, ".apiUser") {
+					fn = "API user: " + fn[strings.Index(fn, ".apiUser")+1:] + " (exported field read under the documented row lock)"
+				} else {
+					harness = true
+				}
 			}
 			funcs = append(funcs, fn)
 			taken = true
